@@ -25,6 +25,10 @@ func (v *VerifSimEngine) VerifLifeNewDialer(s *verifsys.Sock, cb func(*Conn, err
 // VerifLifeNewConn is NewConn (poller.addConn on a fresh Conn) that also returns the Conn when addConn fails.
 func (v *VerifSimEngine) VerifLifeNewConn(s *verifsys.Sock, typ ConnType) (*Conn, error) {
 	c := &Conn{fd: s.Fd, typ: typ}
+	if typ == ConnTypeUDPClientFromDial {
+		// what dupStdConn / DialAsyncTimeout give a UDP client: it is its own udpConn parent (udpConn.Close closes its descriptor)
+		c.connUDP = &udpConn{parent: c}
+	}
 	err := v.G.pollers[0].addConn(c)
 	return c, err
 }
